@@ -695,6 +695,7 @@ SEM_WITNESS = {
     "HARDNAME:compile:hard-coded-unit-lookup-unwrapped": "`numbat --no-prelude`: `dimension Time`, `unit sec: Time`, `fn now() -> DateTime`, `now() - now()` panics at bytecode_interpreter.rs (`Option::unwrap()` on `None`: no unit called `second`); with `unit second: Length` the difference of two date-times is a Length",
     "BASEUNITS:elaborate_statement:second-base-unit-accepted": "`unit foo: Length`, `1 foo + 1 m` type-checks and fails at run time: unit 'm' can not be converted to 'foo' (the project's own tests define such units, e.g. `unit jump: Length`)",
     "ZEROCONV:vm:ConvertTo:unit-less-zero-target": "`let origin: Length = 0`, `5 m -> origin` type-checks and fails at run time: unit 'm' can not be converted to ''",
+    "SUGARNAME:echo:sugar-chosen-by-free-name": "`fn celsius(x) = x + 1` then `celsius(3)` (= 4) is echoed as `3 -> °C`; reading that back in the same session: expected 'Temperature', got 'Scalar' (findings/F72_sugar_by_name.sh)",
     "CMDWORDS:command-words-are-free-identifiers": "file: `let reset = 5`, `reset`, `let z = reset + 1` succeeds (6); typed into the REPL the second line wipes the session and the third fails",
 }
 
@@ -721,7 +722,7 @@ _SEM_MAP = {
     "C08": ("LASTRES", "FMTSPEC", "FOREIGNDECL", "HARDNAME"),
     "C09": ("LASTRES", "FNREF"),
     "C13": ("UNITENV",),
-    "C15": ("TYPENAMES",),
+    "C15": ("TYPENAMES", "SUGARNAME"),
     "C16": ("TYPENAMES",),
 }
 for _pid, _pref in _SEM_MAP.items():
